@@ -648,6 +648,9 @@ pub struct Base {
   pub kinds: Vec<String>,
   /// import index (1-based) whose location contains code token j, else 0 (+ 0 for EOF)
   pub imp_of: Vec<usize>,
+  /// name of the imported member a comment before code token j is attached to ("" = none: the
+  /// comment belongs to the import line as a whole, or j is not in an import)
+  pub mem_of: Vec<String>,
   pub imports: Vec<String>,
   pub id_mismatch: usize,
 }
@@ -661,12 +664,14 @@ pub fn prepare(text: &str) -> Result<Base, String> {
   let code: Vec<usize> = (0..all.len()).filter(|i| !all[*i].is_comment()).collect();
   let toks: Vec<&Tok> = code.iter().map(|i| &all[*i]).collect();
   let (prods, id_mismatch) = productions(&p, &toks);
-  // the kind of the following token; a comment before `:` is handed to the annotation after it, so
-  // for `:` the kind includes the token after it (Comments.tla, NextKind)
+  // the kind of the following token; a comment before `:` or (outside expressions) `,` is handed to
+  // the annotation / list element after it, so for these the kind includes the token after it
+  // (Comments.tla, NextKind)
   let mut kinds: Vec<String> = (0..toks.len())
     .map(|j| {
-      if toks[j].text == ":" && j + 1 < toks.len() {
-        format!(":{}", toks[j + 1].kind_name())
+      let t = toks[j].text.as_str();
+      if (t == ":" || (t == "," && !prods[j].starts_with("expr."))) && j + 1 < toks.len() {
+        format!("{}{}", toks[j].text, toks[j + 1].kind_name())
       } else {
         toks[j].kind_name()
       }
@@ -680,8 +685,20 @@ pub fn prepare(text: &str) -> Result<Base, String> {
     imp_of.push(k);
   }
   imp_of.push(0);
+  // inside the braces of an import a comment goes to the next member (parse_upper_id_with_comments)
+  let mut mem_of = vec![String::new(); toks.len() + 1];
+  for j in 0..toks.len() {
+    if imp_of[j] == 0 || toks[j].text == "{" {
+      continue;
+    }
+    if prods[j] == "import.member" {
+      mem_of[j] = toks[j].text.clone();
+    } else if toks[j].text == "," && j + 1 < toks.len() && prods[j + 1] == "import.member" {
+      mem_of[j] = toks[j + 1].text.clone();
+    }
+  }
   let imports = p.module.imports.iter().map(|i| i.imported_module.pretty_print(&p.heap)).collect();
-  Ok(Base { text: text.to_string(), all, code, prods, kinds, imp_of, imports, id_mismatch })
+  Ok(Base { text: text.to_string(), all, code, prods, kinds, imp_of, mem_of, imports, id_mismatch })
 }
 
 pub struct Ins {
@@ -741,7 +758,7 @@ pub fn observe(base: &Base, x: &str, marked: &[String], width: usize, with_text:
     if t.is_comment() {
       let ws: Vec<&str> = t.text.split_whitespace().collect();
       let ins = ws.len() == 1 && marked.iter().any(|m| m == ws[0]);
-      cm.push(json!({"k": t.kind_name(), "ws": ws, "ins": ins, "slot": j + 1, "imp": base.imp_of[j],
+      cm.push(json!({"k": t.kind_name(), "ws": ws, "ins": ins, "slot": j + 1, "imp": base.imp_of[j], "mem": base.mem_of[j],
                      "cls": format!("{}|{}|{}", base.prods[j], base.kinds[j], t.kind_name())}));
     } else {
       j += 1;
@@ -957,82 +974,127 @@ fn sam_files(dirs: &str) -> Vec<String> {
 }
 
 /// --dirs a,b  --k K (one insertion at every K-th slot)  --phase P (first slot)  --kinds line,block,doc | rotate
+/// --threads N
 pub fn files(args: &[String]) {
   silence_panics();
   let widths = parse_widths(args);
   let with_text = flag(args, "--texts");
-  let k: usize = arg_or(args, "--k", "7").parse().unwrap();
+  let k: usize = arg_or(args, "--k", "7").parse::<usize>().unwrap().max(1);
   let phase: usize = arg_or(args, "--phase", "0").parse().unwrap();
+  let threads: usize = arg_or(args, "--threads", "8").parse::<usize>().unwrap().max(1);
   let kinds_arg = arg_or(args, "--kinds", "rotate");
+  let paths = sam_files(&arg_or(args, "--dirs", "/repo/tests,/repo/std"));
   let all_kinds = ["line", "block", "doc"];
-  let mut out = std::io::BufWriter::new(std::fs::File::create(arg(args, "--out").expect("--out")).unwrap());
-  let (mut n, mut invalid, mut records, mut nfiles, mut skipped_files, mut id_mismatch) = (0, 0, 0, 0, vec![], 0);
-  let mut invalid_samples = vec![];
-  for path in sam_files(&arg_or(args, "--dirs", "/repo/tests,/repo/std")) {
-    let text = match std::fs::read_to_string(&path) {
-      Ok(t) => t,
-      Err(_) => continue,
-    };
-    let b = match prepare(&text) {
-      Ok(b) => b,
-      Err(e) => {
-        skipped_files.push(json!({"file": path, "why": e}));
-        continue;
-      }
-    };
-    nfiles += 1;
-    id_mismatch += b.id_mismatch;
-    let mut clean: BTreeMap<usize, bool> = BTreeMap::new();
-    for w in &widths {
-      let mut rec = observe(&b, &b.text, &[], *w, false);
-      clean.insert(*w, is_clean(&rec));
-      rec["id"] = json!(format!("{path}@base/w{w}"));
-      rec["src"] = json!(path);
-      rec["mode"] = json!("file-base");
-      write_line(&mut out, &rec);
-      records += 1;
+  let mut skipped_files = vec![];
+  let mut bases: Vec<(String, Base)> = vec![];
+  for path in &paths {
+    match std::fs::read_to_string(path).map_err(|e| e.to_string()).and_then(|t| prepare(&t)) {
+      Ok(b) => bases.push((path.clone(), b)),
+      Err(e) => skipped_files.push(json!({"file": path, "why": e})),
     }
+  }
+  // work items: (base, None) = the file itself; (base, Some((slot, kind))) = one insertion
+  let mut items: Vec<(usize, Option<(usize, &str)>)> = vec![];
+  for (bi, (_, b)) in bases.iter().enumerate() {
+    items.push((bi, None));
     let nslots = b.code.len() + 1;
-    let mut s = phase % k.max(1);
+    let mut s = phase % k;
     let mut rot = phase;
     while s < nslots {
-      let kinds: Vec<&str> = if kinds_arg == "rotate" {
+      if kinds_arg == "rotate" {
         rot += 1;
-        vec![all_kinds[rot % 3]]
+        items.push((bi, Some((s, all_kinds[rot % 3]))));
       } else {
-        kinds_arg.split(',').collect()
-      };
-      for kind in kinds {
-        let ins = [Ins { slot: s, kind: kind.to_string(), word: MARK[0].to_string() }];
-        let x = insert(&b, &ins);
-        n += 1;
+        for kind in kinds_arg.split(',') {
+          items.push((bi, Some((s, all_kinds.iter().find(|x| **x == kind).copied().unwrap_or("block")))));
+        }
+      }
+      s += k;
+    }
+  }
+  // base records first (cleanliness per width), then the insertions in parallel
+  let mut clean: Vec<BTreeMap<usize, bool>> = vec![BTreeMap::new(); bases.len()];
+  let next = std::sync::atomic::AtomicUsize::new(0);
+  let results: std::sync::Mutex<Vec<Option<Vec<Value>>>> = std::sync::Mutex::new(vec![None; items.len()]);
+  let run_item = |it: &(usize, Option<(usize, &str)>), clean: Option<&Vec<BTreeMap<usize, bool>>>| -> Vec<Value> {
+    let (path, b) = &bases[it.0];
+    let mut recs = vec![];
+    match it.1 {
+      None => {
         for w in &widths {
-          let mut rec = observe(&b, &x, &[MARK[0].to_string()], *w, with_text);
+          let mut rec = observe(b, &b.text, &[], *w, false);
+          rec["id"] = json!(format!("{path}@base/w{w}"));
+          rec["src"] = json!(path);
+          rec["mode"] = json!("file-base");
+          recs.push(rec);
+        }
+      }
+      Some((s, kind)) => {
+        let ins = [Ins { slot: s, kind: kind.to_string(), word: MARK[0].to_string() }];
+        let x = insert(b, &ins);
+        for w in &widths {
+          let mut rec = observe(b, &x, &[MARK[0].to_string()], *w, with_text);
           rec["id"] = json!(format!("{path}@{}/{kind}/w{w}", s + 1));
           rec["src"] = json!(path);
           rec["mode"] = json!("file");
           rec["case"] = json!({"file": path, "slots": [s + 1], "kinds": [kind]});
           if rec["valid"] == json!(true) {
-            rec["base_clean"] = json!(clean[&*w]);
+            rec["base_clean"] = json!(clean.map(|c| c[it.0][w]).unwrap_or(true));
           }
-          if rec["valid"] == json!(false) {
-            invalid += 1;
-            if invalid_samples.len() < 5 {
-              invalid_samples.push(json!({"id": rec["id"], "why": rec["why"]}));
-            }
-            continue;
-          }
-          write_line(&mut out, &rec);
-          records += 1;
+          recs.push(rec);
         }
       }
-      s += k.max(1);
+    }
+    recs
+  };
+  for (i, it) in items.iter().enumerate() {
+    if it.1.is_none() {
+      let recs = run_item(it, None);
+      for r in &recs {
+        clean[it.0].insert(r["w"].as_u64().unwrap_or(0) as usize, is_clean(r));
+      }
+      results.lock().unwrap()[i] = Some(recs);
+    }
+  }
+  std::thread::scope(|sc| {
+    for _ in 0..threads {
+      sc.spawn(|| loop {
+        let i = next.fetch_add(1, std::sync::atomic::Ordering::SeqCst);
+        if i >= items.len() {
+          break;
+        }
+        if items[i].1.is_none() {
+          continue;
+        }
+        let recs = run_item(&items[i], Some(&clean));
+        results.lock().unwrap()[i] = Some(recs);
+      });
+    }
+  });
+  let mut out = std::io::BufWriter::new(std::fs::File::create(arg(args, "--out").expect("--out")).unwrap());
+  let (mut n, mut invalid, mut records) = (0, 0, 0);
+  let mut invalid_samples = vec![];
+  let id_mismatch: usize = bases.iter().map(|b| b.1.id_mismatch).sum();
+  for (i, r) in results.into_inner().unwrap().into_iter().enumerate() {
+    if items[i].1.is_some() {
+      n += 1;
+    }
+    for rec in r.unwrap_or_default() {
+      if rec["valid"] == json!(false) {
+        invalid += 1;
+        if invalid_samples.len() < 5 {
+          invalid_samples.push(json!({"id": rec["id"], "why": rec["why"]}));
+        }
+        continue;
+      }
+      write_line(&mut out, &rec);
+      records += 1;
     }
   }
   out.flush().unwrap();
   println!(
     "{}",
-    json!({"files": nfiles, "skipped_files": skipped_files, "cases": n, "records": records, "invalid": invalid,
+    json!({"files": bases.len(), "skipped_files": skipped_files, "cases": n, "records": records, "invalid": invalid,
            "invalid_samples": invalid_samples, "id_loc_not_a_token": id_mismatch})
   );
 }
